@@ -28,6 +28,7 @@ class C01(spec.Spec):
 
     def judge(self, doc, out, hist, where, opts=None, extra=None):
         want = observe.dobs(doc)
+        observe.touch(doc)
         for o in (self.option_sets if opts is None else opts):
             try:
                 text, d2 = self.roundtrip(doc, o)
